@@ -157,10 +157,14 @@ def oracle_own_params(rng, n=4):
     out = []
     conv = {"CNOT": ("c", "t"), "CNOT_inv": ("t", "c"), "ECR": ("c", "t"), "ECR_inv": ("c", "t")}
     for nm, (s0, s1) in conv.items():
-        for _ in range(n):
+        for it in range(n + 2):
             phc, pht, t = rng.uniform(-3, 3), rng.uniform(-3, 3), rng.uniform(2e-7, 6e-7)
             q = {"c": (0.001 + rng.uniform(0, 1e-3), 11e-5 + rng.uniform(0, 1e-5), 12e-5 + rng.uniform(0, 1e-5)),
                  "t": (0.003 + rng.uniform(0, 1e-3), 21e-5 + rng.uniform(0, 1e-5), 22e-5 + rng.uniform(0, 1e-5))}
+            if it == n:        # amplitude damping off on one qubit (T1 = 0), pure dephasing on: the values must reach the pulses unchanged
+                w = rng.choice(["c", "t"]); q[w] = (q[w][0], 0.0, q[w][2])
+            if it == n + 1:    # a short but valid gate time: the cross-resonance pulses last less than one single-qubit gate
+                t = rng.uniform(1.15e-7, 1.35e-7)
             args = [phc, pht, t, 0.03, q["c"][0], q["t"][0], q["c"][1], q["c"][2], q["t"][1], q["t"][2]]
             from quantum_gates._gates.gates import Gates
             g = Gates(); f = {"CNOT": g.cnot_c, "CNOT_inv": g.cnot_inv_c, "ECR": g.ecr_c, "ECR_inv": g.ecr_inv_c}[nm]
@@ -182,6 +186,9 @@ def oracle_own_params(rng, n=4):
                 if name == "cr_c" and abs(a[3] - pcr_want) > 1e-12:
                     out.append((nm, k, "cr_c derived two-qubit error", args)); continue
                 if name == "cr_c":
+                    tcr_want = (t - 3 * TG) / 2 if nm == "CNOT_inv" else t / 2 - TG
+                    if abs(a[2] - tcr_want) > 1e-20:
+                        out.append((nm, k, "cr_c pulse duration (%r, the sequence leaves %r)" % (a[2], tcr_want), args)); continue
                     ok = (abs(a[4] - q[s0][1]) < 1e-18 and abs(a[5] - q[s0][2]) < 1e-18 and abs(a[6] - q[s1][1]) < 1e-18 and abs(a[7] - q[s1][2]) < 1e-18)
                     if not ok: out.append((nm, k, name, args));
                     continue
@@ -250,6 +257,12 @@ def oracle_zero_unitary(rng, sets, n=4):
     for sname, g in sets:
         for t in range(n):
             a, b = rng.uniform(-7, 7, 2); th = [0.0, rng.uniform(-7, 7)][t % 2]; tt = rng.uniform(2e-7, 5e-7)
+            # the same gate-set object has just sampled the same pulses WITH noise (another qubit's calibration): zero noise still means ideal
+            if t % 2:
+                g.X(a, 0.01, 5e-5, 4e-5); g.SX(a, 0.01, 5e-5, 4e-5); g.single_qubit_gate(th, a, 0.01, 5e-5, 4e-5)
+                g.CR(th if th else 1e-9, a, tt, 0.02, 5e-5, 4e-5, 6e-5, 5e-5)
+                for nm in ('CNOT', 'CNOT_inv', 'ECR', 'ECR_inv'):
+                    getattr(g, nm)(a, b, tt, 0.3, 0.01, 0.02, 5e-5, 4e-5, 6e-5, 5e-5)
             pairs = [("X", g.X(a, 0, 0, 0), nf.X(a, 0, 0, 0), (a,)), ("SX", g.SX(a, 0, 0, 0), nf.SX(a, 0, 0, 0), (a,)),
                      ("single_qubit_gate", g.single_qubit_gate(th, a, 0, 0, 0), nf.single_qubit_gate(th, a, 0, 0, 0), (th, a)),
                      ("relaxation", g.relaxation(tt, 0, 0), np.eye(2), (tt,)), ("depolarizing", g.depolarizing(tt, 0), np.eye(2), (tt,)), ("bitflip", g.bitflip(tt, 0), np.eye(2), (tt,)),
